@@ -290,6 +290,37 @@ pub fn run(tier: &str) -> Result<Report, String> {
             clash_specs.push(spec);
         }
     }
+    // argument-list sub-family: one symbol of arity 2 / 3 applied to EVERY argument list over the
+    // variables (repetitions, adjacent or not, included), alone and in every ordered pair
+    // `m(args1) & !m(args2)` - the generated constants are shared by all applications of a symbol
+    let mut arg_specs = vec![];
+    for (nv, arity) in [(2usize, 2usize), (2, 3), (3, 3)] {
+        if nv == 3 && tier == "quick" {
+            continue;
+        }
+        let lists: Vec<Vec<usize>> = (0..nv.pow(arity as u32)).map(|mut c| (0..arity).map(|_| { let x = c % nv; c /= nv; x }).collect()).collect();
+        let vars: Vec<String> = ["a", "b", "c"].iter().take(nv).map(|s| s.to_string()).collect();
+        let regs: Vec<Reg> = (0..nv).map(|src| Reg { src, dst: 0, sign: Sign::Unk, observable: false }).chain((1..nv).map(|v| Reg { src: v, dst: v, sign: Sign::Unk, observable: false })).collect();
+        let mk = |f: Expr| {
+            let mut funcs = vec![Some(f)];
+            for v in 1..nv {
+                funcs.push(Some(Expr::Var(v)));
+            }
+            NetSpec { vars: vars.clone(), regs: regs.clone(), funcs }
+        };
+        for l1 in &lists {
+            // every variable must be mentioned somewhere in the function (declared regulators)
+            arg_specs.push(mk(Expr::Call("m".into(), l1.clone())));
+            for l2 in &lists {
+                if l1 != l2 {
+                    arg_specs.push(mk(Expr::bin('&', Expr::Call("m".into(), l1.clone()), Expr::not(Expr::Call("m".into(), l2.clone())))));
+                }
+            }
+        }
+    }
+    let arg_specs: Vec<NetSpec> = arg_specs.into_iter().filter(|s| s.well_formed()).collect();
+    rep.set("argument_list_networks", json!(arg_specs.len()));
+    specs.extend(arg_specs);
     rep.set("networks_enumerated", json!(specs.len()));
     rep.set("name_clash_networks", json!(clash_specs.len()));
     specs.extend(clash_specs);
@@ -322,7 +353,7 @@ pub fn run(tier: &str) -> Result<Report, String> {
     rep.set("networks_accepted_by_the_library", json!(accepted));
     rep.sample(json!({"aeon": specs[specs.len() / 2].to_aeon()}));
     rep.sample(json!({"aeon": "a -?? b\nb -?? b\n$b: f(a) | h\n", "oracle": "as the fresh inputs range over all values, b's output function must range over exactly the 2 * 4 instantiations of f(a) | h"}));
-    rep.rule = "every network with 1..3 variables a,b,c whose variables each take one item of a menu (no regulator/no function; constants; zero-arity h; implicit function over 1, 2 (3) regulators; !x, x, x^y, x|!y; f(x); f(x)|h; g(x)&!f(x); k(x,y); k(y,x); f(x)&g(y); f(x)|f(y); k(x,y)&!k(y,x); f(!x); f(x)&f(!x); k(!x,y)|k(x,y); f(x)^(f(x)&h); f(y)=>(x&h); ...; unconstrained and, for n<=2, constrained regulations; symbols shared between variables) that is well formed and accepted by the library, plus a name-clash sub-family (a variable named like a generated input). The convert-aeon-to-bnet binary built from the working tree is run on the aeon text; its output is re-loaded as bnet; for every target the set of truth tables over the original variables under all valuations of the fresh inputs must equal the set of truth tables of all instantiations of the input function (constraints dropped); targets = variables with a regulator or function; fresh inputs are no targets. distinct_nontrivial = networks accepted by the library".into();
+    rep.rule = "every network with 1..3 variables a,b,c whose variables each take one item of a menu (no regulator/no function; constants; zero-arity h; implicit function over 1, 2 (3) regulators; !x, x, x^y, x|!y; f(x); f(x)|h; g(x)&!f(x); k(x,y); k(y,x); f(x)&g(y); f(x)|f(y); k(x,y)&!k(y,x); f(!x); f(x)&f(!x); k(!x,y)|k(x,y); f(x)^(f(x)&h); f(y)=>(x&h); ...; unconstrained and, for n<=2, constrained regulations; symbols shared between variables) that is well formed and accepted by the library, plus a name-clash sub-family (a variable named like a generated input) and an argument-list sub-family (a symbol of arity 2 / 3 applied to every argument list over the variables, repetitions included, alone and in every ordered pair m(args1) & !m(args2)). The convert-aeon-to-bnet binary built from the working tree is run on the aeon text; its output is re-loaded as bnet; for every target the set of truth tables over the original variables under all valuations of the fresh inputs must equal the set of truth tables of all instantiations of the input function (constraints dropped); targets = variables with a regulator or function; fresh inputs are no targets. distinct_nontrivial = networks accepted by the library".into();
     rep.assumptions.push("biodivine-lib-param-bn's bnet parser is trusted for reading the converter's output; truth tables are evaluated by the harness's own evaluator".into());
     Ok(rep)
 }
